@@ -31,6 +31,9 @@ CLAIMS = {
  "C05": ("Parser half: the returned tree including internal child order is proved equal to a spec function of the inputs; vstd leaves HashMap iteration order unconstrained, so the proof can only exist if that order does not influence the result.", base_note + " Renderer determinism is covered by the bounded stand-in only (repeated parse+render in one process and across threads).", "Verus functional postconditions over an unconstrained HashMap-order model"),
  "C07": ("Unbounded deductive proof of panic freedom and termination of every function under contract: Verus's built-in obligations (arithmetic overflow, Vec::remove bounds, unwrap preconditions) and decreases clauses for every loop and for the build_struct/parse_tag recursion, for all event streams.", base_note + " quick_xml internals, allocation failure, stack exhaustion and the whole renderer are outside the verifier; the renderer and byte-level inputs are exercised by the bounded stand-in only.", "Verus implicit obligations + decreases on the real parser/tree functions"),
  "C11": ("Parser half, unbounded: (1) T1 - the real parser computes g_build of the abstract event stream, in which attribute values do not exist; (2) theorem_norm, proved in Verus over the ghost algorithm - g_build of a stream equals g_build of its normal form, where comments/PIs/declaration/DOCTYPE are dropped, CDATA is text, valid text content is erased and <x/> is <x></x> (layer E). Hence the returned tree modulo text content depends only on element names, attribute names, nesting, repetition and the presence of character data.", base_note + " Buffer-size independence is a property of quick_xml (outside the event model); that the renderer reads text only through is_some() and never reads count is assumed (A8); both are exercised by the bounded stand-in (all listed rewrites, BufReader capacities 1..64).", "Verus refinement proof on the real parser + spec-level normal-form theorem over the ghost algorithm"),
+ "C01": ("Unbounded, two layers: (T1) the tree returned by into_struct/extend_struct equals g_build of the abstract event stream (Verus refinement proof on the real parser); (T2) theorem_occurrence_start/_empty, proved in Verus over g_build: after absorbing one occurrence of an element, a child is Mandatory only if it is present in this occurrence and was Mandatory so far (or this is the parent's first occurrence), single only if it was single so far and occurs at most once here, the text flag is set if character data occurs, every name seen has exactly one entry; attributes by theorem_c15 (Mandatory only if Mandatory in both). By induction over the occurrences (each node is updated only by such steps) the tree over-approximates every absorbed occurrence.", base_note + " The induction over occurrences is the standard meta-argument over the one-step theorems and is not itself machine-checked; the rendering of Option/Vec/String from the tree is outside the verifier (bounded stand-in: the tree is compared with a DOM-based oracle on generated document sequences).", "Verus refinement proof on the real parser + one-step soundness theorems over the ghost algorithm"),
+ "C06": ("Unbounded for: extend_struct == absorbing one more root occurrence below a synthetic parent with the same g_build (T1 on the real extend_struct; corollary_extend_is_occurrence), an element-less input returns the previous structure (corollary_extend_elementless), every occurrence step is monotone - nothing dropped, Optional never becomes Mandatory, repeated never becomes single, text never lost, attributes by theorem_c15 (corollary_step_monotone, corollary_attrs_monotone); a failed extension returns Err and, by ownership, no partial tree (verdict == scan()).", base_note + " Independence of the order of the documents and idempotence of re-supplying a document are NOT proved; they are covered by the bounded stand-in only (reversal, rotation, re-supply, element-less inputs, comparison with the union oracle on generated sequences).", "Verus refinement proof on the real extend_struct + monotonicity corollaries over the ghost algorithm"),
+ "C09": ("Tree half, unbounded: theorem_level_order (Verus, over g_build): children ordered by `position` are the previously known children followed by the new ones in order of first appearance at that nesting level; T1 ties the real parser to g_build, add_unique_child's contract assigns the next free position; attribute lists are in first-appearance order by the order clause of merge_necessity's contract (theorem_c15).", base_note + " The renderer's sort calls (by position / by XML name) and 'switching the option changes nothing else' are outside the verifier and covered by the bounded stand-in only (rendered field order for both sort options on generated documents).", "Verus refinement proof + position-order theorem over the ghost algorithm"),
  "C08": ("Unbounded deductive proof that the Ok/Err verdict of into_struct/extend_struct (and of build_struct/parse_tag) equals scan(), an independent stream-order oracle over the same abstract events, plus 'no element' for the initial parse.", base_note + " The error payload (reader error and byte position) is compared by the bounded stand-in only.", "Verus postcondition against a spec oracle"),
 }
 def main():
